@@ -531,7 +531,7 @@ pub fn run_and_record(h: &History, want: &str, rep: &mut Report, sample: bool) {
 /// C14: times above 10 s behave like 10 s, sample for sample (twin processors, bit-equal outputs)
 pub fn twin_slow_clamp(ctx: &Ctx, rep: &mut Report) {
     let mut r = Rng::derive(ctx.seed, "glide.twin", 0);
-    let n = ctx.budget(2, 40, 400);
+    let n = ctx.budget(2, 100, 4000);
     for _ in 0..n {
         let fs = pick_fs(&mut r);
         let t = *r.pick(&[10.000_001f32, 10.06, 11.0, 20.0, 1e3, 1e30, f32::MAX]);
@@ -574,7 +574,7 @@ pub fn run(ctx: &Ctx, prop: &str) -> Report {
     };
     // (1) the (fs, t) plane: clean steps of both signs, several sizes and offsets
     let t0 = std::time::Instant::now();
-    let n_pts = ctx.budget(6, 400, 6000) as usize;
+    let n_pts = ctx.budget(6, 3_000, 100_000) as usize;
     let shards = if small { 1 } else { 64 };
     let r = par_shards(ctx, shards, |sh| {
         let mut rep = Report::new();
@@ -607,7 +607,7 @@ pub fn run(ctx: &Ctx, prop: &str) -> Report {
     stage("glide.step_plane", r, &mut rep, t0);
     // (2) dead-band sequences
     let t0 = std::time::Instant::now();
-    let n_db = ctx.budget(3, 600, 20_000) as usize;
+    let n_db = ctx.budget(3, 4_000, 300_000) as usize;
     let r = par_shards(ctx, shards, |sh| {
         let mut rep = Report::new();
         let mut r = Rng::derive(ctx.seed, "glide.deadband", sh as u64);
@@ -620,7 +620,7 @@ pub fn run(ctx: &Ctx, prop: &str) -> Report {
     stage("glide.dead_band_sequences", r, &mut rep, t0);
     // (3) mixed hostile histories
     let t0 = std::time::Instant::now();
-    let n_mix = ctx.budget(8, 3000, 120_000) as usize;
+    let n_mix = ctx.budget(8, 15_000, 1_500_000) as usize;
     let r = par_shards(ctx, shards, |sh| {
         let mut rep = Report::new();
         let mut r = Rng::derive(ctx.seed, "glide.mixed", sh as u64);
